@@ -170,7 +170,7 @@ func c14ServeWith(table []string, chunks [][]byte, terminator []byte, limit int)
 					return err
 				}
 				o.rows = append(o.rows, c14Print(row))
-				if len(o.rows) > 64 {
+				if len(o.rows) > 1000 {
 					o.final = "error: runaway reader"
 					return fmt.Errorf("runaway")
 				}
@@ -507,6 +507,93 @@ func c14Header(tier string, emit explore.Emit) {
 func c14Enumerate(tier string, emit explore.Emit) {
 	c14Extra(tier, emit)
 	c14Header(tier, emit)
+	// a fixed-width column (int4 / int8 / bool) whose field is sent with another, self-consistent length
+	for _, col := range []struct {
+		t     string
+		width int
+	}{{"int4", 4}, {"int8", 8}, {"bool", 1}} {
+		for _, w := range []int{0, 1, 2, 3, 4, 5, 7, 8, 9, 16} {
+			if w == col.width {
+				continue
+			}
+			col, w := col, w
+			emit(explore.Case{Family: "corruption", Size: 2,
+				Desc: func() any {
+					return map[string]any{"column_type": col.t, "field_sent_with_bytes": w, "then": "a well-formed row"}
+				},
+				Run: func() explore.Result {
+					var res explore.Result
+					res.Outcome = "corrupt"
+					res.Key = fmt.Sprint("width", col.t, w)
+					val := bytes.Repeat([]byte{1}, w)
+					good := c14Types[col.t].Enc(0)
+					stream := pgproto.Cat(pgproto.BinaryCopyHeader(), pgproto.BinaryCopyTuple([][]byte{val, []byte("x")}), pgproto.BinaryCopyTuple([][]byte{good, []byte("y")}), pgproto.BinaryCopyTrailer())
+					o, eng := c14ServeWith([]string{col.t, "text"}, [][]byte{stream}, pgproto.CopyDone(), 0)
+					if eng != "" {
+						res.Engine = eng
+						return res
+					}
+					res.Trans = []string{"row|field of the wrong width|error"}
+					if !strings.HasPrefix(o.final, "error") || len(o.rows) != 0 {
+						res.Fail("corruption-accepted", fmt.Sprintf("a %s field sent with %d bytes: the reader produced rows %v and ended with %q (a value that is not of the column's type is an error, never a row)", col.t, w, o.rows, o.final))
+					}
+					return res
+				}})
+		}
+	}
+	// long streams: 300 rows with NULLs in changing positions, one message and 100-byte messages
+	for _, chunk := range []int{0, 100, 8192} {
+		chunk := chunk
+		emit(explore.Case{Family: "many-rows", Size: 300, Desc: func() any { return map[string]any{"rows": 300, "copydata_chunk": chunk} },
+			Run: func() explore.Result {
+				var res explore.Result
+				res.Outcome = "split"
+				res.Key = fmt.Sprint("many", chunk)
+				stream := pgproto.BinaryCopyHeader()
+				var want []string
+				for r := 0; r < 300; r++ {
+					id := []byte{0, 0, byte(r >> 8), byte(r)}
+					var name []byte
+					w := fmt.Sprintf("[%d <nil>]", r)
+					if r%3 != 2 && r%64 != 1 {
+						name = []byte(fmt.Sprintf("name-%d", r))
+						w = fmt.Sprintf("[%d %q]", r, name)
+					}
+					if r%5 == 4 {
+						id = nil
+						w = "[<nil>" + w[strings.Index(w, " "):]
+					}
+					stream = append(stream, pgproto.BinaryCopyTuple([][]byte{id, name})...)
+					want = append(want, w)
+				}
+				stream = append(stream, pgproto.BinaryCopyTrailer()...)
+				var cuts []int
+				for c := chunk; chunk > 0 && c < len(stream); c += chunk {
+					cuts = append(cuts, c)
+				}
+				o, eng := c14ServeWith([]string{"int4", "text"}, splitAt(stream, cuts), pgproto.CopyDone(), 0)
+				if eng != "" {
+					res.Engine = eng
+					return res
+				}
+				res.Trans = []string{"300 rows|decode|rows"}
+				if !sameStrings(o.rows, want) || o.final != "eof" {
+					first := "count"
+					for i := range want {
+						if i >= len(o.rows) || o.rows[i] != want[i] {
+							got := "(missing)"
+							if i < len(o.rows) {
+								got = o.rows[i]
+							}
+							first = fmt.Sprintf("row %d: encoded %s, decoded %s", i, want[i], got)
+							break
+						}
+					}
+					res.Fail("split-dependent", fmt.Sprintf("300 rows (CopyData messages of %d bytes): %d rows decoded, reader ended with %q; first difference: %s", chunk, len(o.rows), o.final, first))
+				}
+				return res
+			}})
+	}
 	for _, order := range [][]string{{"as-text", "as-int8"}, {"as-int8", "as-text"}, {"as-text", "as-int8", "as-text"}, {"as-int8", "as-int8", "as-text", "as-int8"}} {
 		order := order
 		emit(explore.Case{Family: "per-connection-types", Size: len(order),
